@@ -61,7 +61,7 @@ def run_isoquant(args, home, mon=None, cfg=None, hashseed="0", timeout=600, even
 
 def load_events(evdir):
     evs = []
-    for fn in sorted(glob.glob(os.path.join(evdir, "*.jsonl"))):
+    for fn in sorted(glob.glob(os.path.join(glob.escape(evdir), "*.jsonl"))):
         with open(fn) as f:
             for line in f:
                 line = line.strip()
